@@ -126,6 +126,11 @@ func usePipeOuts(pipe *syntax.Pipeline,
 			usedPipes, outputs)
 	}
 	for _, call := range pipe.Calls {
+		// A called pipeline uses the outputs of its own children even if
+		// none of its own outputs are referenced here.
+		if p, ok := pipe.Callables.Table[call.Id].(*syntax.Pipeline); ok && p != nil {
+			usedPipes[makeDecId(p)] = p
+		}
 		removeBoundCallRefs(call.Bindings, pipe.Callables.Table,
 			usedPipes, outputs)
 		if call.Modifiers != nil && call.Modifiers.Bindings != nil {
